@@ -22,13 +22,15 @@
 //! injection is exhausted.
 
 use crate::budget::{BudgetEnforcer, EnforcingPolicy};
-use crate::buffered_input::{ChunkedChars, buffered_input_from_reader_with_limit};
+use crate::buffered_input::{
+    ChunkedChars, EofAwareInput, buffered_input_from_reader_with_limit,
+};
 use crate::de::{AliasLimits, Budget, Error, Ev, Events, Location};
 use crate::de_error::budget_error;
 use crate::location::location_from_span;
 use crate::options::BudgetReportCallback;
 use crate::tags::SfTag;
-use saphyr_parser::{BufferedInput, Event, Parser, ScalarStyle, ScanError, Span, StrInput, Tag};
+use saphyr_parser::{Event, Parser, ScalarStyle, ScanError, Span, StrInput, Tag};
 use smallvec::SmallVec;
 use std::borrow::Cow;
 use std::cell::RefCell;
@@ -36,9 +38,9 @@ use std::rc::Rc;
 
 type StreamReader<'a> = Box<dyn std::io::Read + 'a>;
 type StreamBufReader<'a> = std::io::BufReader<StreamReader<'a>>;
-type StreamInput<'a> = BufferedInput<ChunkedChars<StreamBufReader<'a>>>;
-// NOTE: `BufferedInput` is a streaming input without stable backing storage.
-// Upstream implements `BorrowedInput<'static>` for it, so the parser's event lifetime is `'static`.
+type StreamInput<'a> = EofAwareInput<ChunkedChars<StreamBufReader<'a>>>;
+// NOTE: the reader input is a streaming input without stable backing storage.
+// It implements `BorrowedInput<'static>` (as upstream's `BufferedInput` does), so the parser's event lifetime is `'static`.
 // This is fine for our reader-based mode since we never borrow from the original input string.
 type StreamParser<'a> = Parser<'static, StreamInput<'a>>;
 
@@ -171,7 +173,7 @@ impl<'a> LiveEvents<'a> {
         // Build a streaming character iterator from the byte reader, honoring input byte cap if configured
         let max_bytes = budget.as_ref().and_then(|b| b.max_reader_input_bytes);
         let (input, error) = buffered_input_from_reader_with_limit(inputs, max_bytes);
-        let parser = Parser::new(input);
+        let parser = Parser::new(EofAwareInput(input));
         Self {
             produced_any_in_doc: false,
             synthesized_null_emitted: false,
